@@ -62,6 +62,8 @@ pub trait ConnectionState {
     /// set the connection error and wake the connection
     fn set_conn_error_and_wake<T: Into<ErrorOrigin>>(&self, error: T) -> ErrorOrigin {
         let err = self.set_conn_error(error.into());
+        #[cfg(feature = "verif-hooks")]
+        crate::verif::preempt("conn_error.stored_before_wake");
         self.waker().wake();
         err
     }
